@@ -145,7 +145,7 @@ def strata(tier):
             ("row_iterators", _case(600, None, ["GULP", "excel", "excel_eam", "excel_eam_fs"]), 3),
             ("variables_named_like_options", _case(600, variables=True), 1.5),
             ("inexact_quotients", _case(600, None, ["LAMMPS", "GULP", "setfl", "excel", "DL_POLY_EAM", "setfl_fs", "eam_adp"], inexact=True), 2),
-            ("fine_steps", _case(60, None, ["GULP", "excel", "setfl", "setfl_fs", "excel_eam", "eam_adp"], True), 2)] + [("reject:" + w, _case(60, w), 0.25) for w in WHYS]
+            ("fine_steps", _case(60, None, ["GULP", "excel", "setfl", "setfl_fs", "excel_eam", "eam_adp"], True), 3.5)] + [("reject:" + w, _case(60, w), 0.25) for w in WHYS]
 
 
 def budget(tier):
